@@ -45,7 +45,7 @@ def is_finite(f):
 class C08(Prop):
     id = "C08"
     lean_modules = ["Fan2go.Props.C08"]
-    fact_modules = ["Fan2go.Props.Trans"]
+    fact_modules = ["Fan2go.Props.Trans", "Fan2go.Props.Trans3Leaf"]
     rule = ("sensor: real HwmonSensor / FileSensor / CmdSensor objects + the real updateSensor, window sizes {1,2,3,10,50}, "
             "reading sequences with read faults (missing / unreadable / empty / non-numeric file; for cmd: non-zero exit, "
             "garbage, 'nan', 'inf', out-of-range output) at random places; converge: constant readings; sma: "
@@ -61,6 +61,16 @@ class C08(Prop):
         if name == "sma":
             return out
         for cops, cgo in cases(ops, go):
+            if len(cops) >= 2 and cops[1].startswith("sn.init"):
+                for i in range(1, len(cops)):
+                    g = kv(cgo[i])
+                    if not cops[i].startswith("sn.init") or "avg" not in g or not g["avg"].startswith("x"):
+                        continue
+                    v0 = bits2f(int(g["avg"][1:], 16))
+                    if not is_finite(v0):
+                        out.append(viol(f"the smoothed value starts at {v0}: a non-finite first reading poisons it for ever", [cops[0], cops[i]], [cgo[0], cgo[i]]))
+                        break
+                continue
             if len(cops) < 2 or not cops[1].startswith("sn.new"):
                 continue
             a = kv(cops[1])
